@@ -1948,6 +1948,27 @@ static int xstream_update_main_sched(ABTI_global *p_global,
         if (p_main_sched->p_replace_sched) {
             /* We need to overwrite the scheduler.  Free the existing one. */
             ABTI_ythread *p_waiter = p_main_sched->p_replace_waiter;
+            /* The waiter was associated with a pool of the scheduler that is
+             * discarded now.  It will run under the new scheduler, so it (and
+             * its count as a blocked ULT) must be moved to a pool of the new
+             * scheduler before the discarded scheduler and its pools go. */
+            ABTI_sched *p_old_replace_sched = p_main_sched->p_replace_sched;
+            ABTI_pool *p_waiter_pool = p_waiter->thread.p_pool;
+            for (p = 0; p < p_old_replace_sched->num_pools; p++) {
+                if (p_waiter_pool ==
+                    ABTI_pool_get_ptr(p_old_replace_sched->pools[p])) {
+                    if (p_waiter_pool != p_tar_pool) {
+                        int abt_errno =
+                            ABTI_thread_set_associated_pool(p_global,
+                                                            &p_waiter->thread,
+                                                            p_tar_pool);
+                        ABTI_CHECK_ERROR(abt_errno);
+                        ABTI_pool_inc_num_blocked(p_tar_pool);
+                        ABTI_pool_dec_num_blocked(p_waiter_pool);
+                    }
+                    break;
+                }
+            }
             ABTI_sched_discard_and_free(p_global,
                                         ABTI_xstream_get_local(
                                             *pp_local_xstream),
